@@ -152,11 +152,10 @@ def getChallenges (c : CommonData) (pih : Digest) (circuitDigest : Digest) (p : 
 
 /-! ### shape validation -/
 
-/-- `cap.height() == cap_height` (`MerkleCap::height()` panics on a non power of two) -/
+/-- `cap.len() == 1 << cap_height` (after the repair of F-C18-1; before it the code called
+`MerkleCap::height()`, which panics on a cap whose length is not a power of two) -/
 def capCheck (capHeight : Nat) (cap : List Digest) : Verdict :=
-  match log2Strict cap.length with
-  | none => .panic "cap.height(): not a power of two"
-  | some h => if h = capHeight then .accept else .reject "shape"
+  if cap.length = 2 ^ capHeight then .accept else .reject "shape"
 
 def lenCheck (ok : Bool) (stage : String) : Verdict := if ok then .accept else .reject stage
 
